@@ -36,7 +36,9 @@ def normname(name):
     return name
 
 
-ACQ_NORM = {'borrow': 'acq', 'read': 'acq', 'try_borrow': 'acq', 'try_read': 'acq', 'borrow_mut': 'acq_mut', 'write': 'acq_mut', 'try_borrow_mut': 'acq_mut', 'try_write': 'acq_mut'}
+# shared vs exclusive acquisition is not observable by a single-threaded program unless it conflicts with a guard that is still
+# alive -- which is what G3 (plain) and LK1 (sync) decide; the sibling comparison does not distinguish the modes
+ACQ_NORM = {'borrow': 'acq', 'read': 'acq', 'try_borrow': 'acq', 'try_read': 'acq', 'borrow_mut': 'acq', 'write': 'acq', 'try_borrow_mut': 'acq', 'try_write': 'acq'}
 
 
 def argsig(t, depth=0):
@@ -384,7 +386,7 @@ STD_ONLY = re.compile(r'^(std::vec::|std::collections::|HSET|HMAP|<HSET as |<HMA
 # adaptors that keep order and multiplicity); mutating or order-changing ones (truncate, drain, retain, sort, swap_remove, ...) are not
 IDIOM_OPS = {'contains', 'contains_key', 'get', 'len', 'is_empty', 'iter', 'into_iter', 'next', 'position', 'enumerate', 'map', 'cloned', 'copied', 'collect',
              'pop', 'push', 'extend', 'append', 'reverse', 'rev', 'last', 'first', 'sum', 'ok_or', 'ok_or_else', 'unwrap_or', 'is_some', 'is_none', 'is_ok', 'is_err', 'as_ref', 'values', 'keys',
-             'any', 'all', 'find', 'for_each', 'count', 'index', 'skip', 'eq', 'ne', 'call', 'call_mut', 'call_once', 'split_last', 'split_first', 'saturating_sub', 'with_capacity', 'new', 'default', 'and_then', 'ok', 'filter_map', 'flatten', 'zip', 'chain', 'by_ref', 'peekable'}
+             'any', 'all', 'find', 'for_each', 'count', 'index', 'skip', 'eq', 'ne', 'push_back', 'push_front', 'pop_back', 'pop_front', 'call', 'call_mut', 'call_once', 'split_last', 'split_first', 'saturating_sub', 'with_capacity', 'new', 'default', 'and_then', 'ok', 'filter_map', 'flatten', 'zip', 'chain', 'by_ref', 'peekable'}
 
 
 ITER_PLUMBING = {'iter', 'into_iter', 'next', 'map', 'cloned', 'copied', 'collect', 'enumerate', 'sum', 'for_each', 'by_ref', 'values', 'keys', 'as_ref', 'len', 'with_capacity', 'new'}
